@@ -27,8 +27,8 @@ def _near(flat, scores):
 
 # ------------------------------------------------------------------ clause: cm_counts
 @st.composite
-def _cm_cases(draw):
-    s = draw(gen.score_sets(max_size=10, mag=1e300, max_easy=1000))
+def _cm_cases(draw, max_size=10):
+    s = draw(gen.score_sets(max_size=max_size, mag=1e300, max_easy=1000))
     thr = draw(gen.shaped_thresholds(s["pos"] + s["neg"], mag=1e300))
     return dict(s=s, thr=thr, sorted=draw(st.booleans()),
                 via=draw(st.sampled_from(["ctor", "ctor", "labels"])))
@@ -198,9 +198,9 @@ PROP = Prop(
           "Python comparison operators. Non-trivial = both classes non-empty and some threshold "
           "equal to, or one ulp from, a score; distinct = distinct canonical case JSON."),
     clauses=[
-        Clause("cm_counts", check_cm, strategy=_cm_cases(), quick=700, thorough=4000,
+        Clause("cm_counts", check_cm, strategy=lambda tier: _cm_cases(10 if tier == "quick" else 40), quick=700, thorough=16000,
                min_nontrivial=50, doc="Scores.cm and the six rates vs counting"),
-        Clause("pointwise", check_pointwise, strategy=_pw_cases(), quick=400, thorough=2000,
+        Clause("pointwise", check_pointwise, strategy=_pw_cases(), quick=400, thorough=8000,
                min_nontrivial=30, doc="pointwise_cm membership and its sum over samples"),
         Clause("enum_small", check_enum, kind="enum", cases=_enum_cases, shards=16,
                quick_shards=2, min_nontrivial=10,
